@@ -16,8 +16,14 @@ git stash -q 2>/dev/null; git checkout -q -- . ;
 if ! git apply --check $dst/patch.diff; then echo "PATCH DOES NOT APPLY" | tee -a $log; exit 1; fi
 git apply $dst/patch.diff
 echo "== suite with change" >> $log
-cargo test --workspace --no-fail-fast --offline > $dst/suite.log 2>&1; src=$?
-passed=$(grep -E "^test result" $dst/suite.log | awk '{p+=$4; f+=$6} END {print p" passed "f" failed"}')
+# the pinned baseline command is nextest (349 tests, no doctests); fall back to cargo test when nextest is missing
+if cargo nextest --version > /dev/null 2>&1; then
+  cargo nextest run --workspace --no-fail-fast --test-threads 8 --offline > $dst/suite.log 2>&1; src=$?
+  passed=$(grep -E "tests run:" $dst/suite.log | tail -1 | sed -E 's/.*tests run: *//')
+else
+  cargo test --workspace --no-fail-fast --offline > $dst/suite.log 2>&1; src=$?
+  passed=$(grep -E "^test result" $dst/suite.log | awk '{p+=$4; f+=$6} END {print p" passed "f" failed"}')
+fi
 echo "suite rc=$src $passed" | tee -a $log
 tail -c 2000 $dst/suite.log > $dst/suite.tail; rm -f $dst/suite.log
 echo "== demo with change" >> $log
